@@ -217,8 +217,9 @@ class C20:
                 # it is needed) are ranked 0..k-1 in a random order, so two ranks never differ by more than len - 1 (HierOK)
                 kept = [v for v in (0, 1, 2) if not (holes and rng.random() < 0.2)]
                 order = kept[:]; rng.shuffle(order)
+                tie = len(kept) == 3 and rng.random() < 0.35      # two values on one level: ranks 0, 0, 1 (still a ranking)
                 for v in kept:
-                    htr.append([l, v, order.index(v)])
+                    htr.append([l, v, max(0, order.index(v) - 1) if tie else order.index(v)])
             prof["hier"] = {"hl": hl, "htr": htr, "stat": stat, "dynp": dynp, "dyn": dyn, "holes": holes}
             yield {"cls": 1 if directed else 0, "rem": 1, "ops": ops, "labels": labels, "start": start, "delta": delta, "alphas": alphas, "prof": prof,
                    "ptype": rng.randint(0, 4), "nmap": nmap, "lmap": lmap, "equal": mode == 1, "ids": "int", "src": "rand",
@@ -250,10 +251,15 @@ class C20:
         # any exponent: the model receives the powers d ** alpha exactly as Python's floats give them (model: nodeScoreW, theorem C20W_bound)
         from fractions import Fraction
         blocks = []
-        for a in case["alphas"]:
-            ws = [Fraction(float(dd) ** (a / 100.0)) for dd in range(1, 9)]
-            blocks.append("%d %d %s" % (a, len(ws), " ".join("%d %d" % (w.numerator, w.denominator) for w in ws)))
-        L.append("confw 0 %d %d %d %d %s" % (s, d, pt, len(case["alphas"]), " ".join(blocks)))
+        # exponents with more than two decimals too (1.006, 2.718): the result key is '%.2f' % alpha, the powers use alpha itself
+        al1000 = [a * 10 for a in case["alphas"]] + [x for x in ([1006, 2718, 1234, 505][len(case["ops"]) % 4],)
+                                                     if ("%.2f" % (x / 1000.0)) not in {"%.2f" % (a / 100.0) for a in case["alphas"]}]
+        for a in al1000:
+            alpha = a / 1000.0
+            ws = [Fraction(float(dd) ** alpha) for dd in range(1, 9)]
+            blocks.append("%d %d %d %s" % (a, int(round(float("%.2f" % alpha) * 100)), len(ws), " ".join("%d %d" % (w.numerator, w.denominator) for w in ws)))
+        case["_confw_extra"] = len(al1000) - len(case["alphas"])
+        L.append("confw 0 %d %d %d %d %s" % (s, d, pt, len(al1000), " ".join(blocks)))
         pr = case["prof"]
         L.append(("confp 0 %d %d %d %d %d %s %d %s %d %s" % (s, d, pt, pr["psize"], len(pr["labels"]), " ".join(map(str, pr["labels"])),
                   len(pr["alphas"]), " ".join(map(str, pr["alphas"])), len(pr["tab"]), " ".join("%d %d %d" % tuple(x) for x in pr["tab"]))).replace("  ", " "))
@@ -350,7 +356,19 @@ class C20:
                             if not approx(v, exp):
                                 fails.append(F("C20.all_equal", node=x, alpha=a, profile=p, expected=exp, got=val))
         # the same call again (the model is given the powers d ** alpha as exact rationals): same answer as the first call
-        if not check_same(conf, confw):
+        if isinstance(confw, dict) and isinstance(conf, dict):
+            extra = {k: v for k, v in confw.items() if k not in conf}
+            if not check_same(conf, {k: v for k, v in confw.items() if k in conf}):
+                fails.append(F("C20.repeat_call", first=conf, second=confw))
+            for a, prof in extra.items():       # the exponent with more decimals: same keys, bound, all-equal
+                for p_, sc in prof.items():
+                    for x, val in sc:
+                        v = oracles_num(val)
+                        if not (-1 - 1e-9 <= v <= 1 + 1e-9):
+                            fails.append(F("C20.bound", where="exponent with decimals", node=x, alpha=a, got=val))
+                        if case["equal"] and not approx(v, 1.0 if x in reach else 0.0):
+                            fails.append(F("C20.all_equal", where="exponent with decimals", node=x, alpha=a, got=val))
+        elif not check_same(conf, confw):
             fails.append(F("C20.repeat_call", first=conf, second=confw))
         # time-varying labels and hierarchies (model: ConformityH.lean; theorems C20H_result, C20H_errors)
         if pr["psize"] > len(pr["labels"]) or not pr["alphas"]:
